@@ -69,6 +69,8 @@ type ChainCfg struct {
 	Conserve   bool // C02 sums
 	EveryStep  bool
 	DiffEveryN int
+	Crash      bool // C06: journal node 0 and enumerate crash images at the end
+	NoStepOrcl bool // skip per-step oracles (C06 scenarios only check at crash images)
 }
 
 const nAcct = 5 // accounts used as senders / receivers
@@ -94,7 +96,8 @@ type chainRun struct {
 	step  int
 	op    string
 	// snapshot expectations recorded when a block was the state tip: blockid -> key -> line
-	snapAt map[string]map[string]string
+	snapAt      map[string]map[string]string
+	sawTruncate bool
 }
 
 func (r *chainRun) viol(clause, format string, a ...interface{}) *Violation {
@@ -156,6 +159,12 @@ func ExecChain(plan *ChainPlan, cfg *ChainCfg, rc *RunCtx) *Violation {
 		r.views = append(r.views, &nodeView{stored: []string{rid}, storedSet: map[string]bool{rid: true}, tip: rid, applied: map[string]bool{rid: true}})
 	}
 	w.RPC = r.rpc
+	var crashBase *simkv.Disk
+	var stepAt []int
+	if cfg.Crash {
+		crashBase = w.Nodes[0].Disk.Clone()
+		w.Nodes[0].Disk.StartJournal()
+	}
 	for i := range plan.Steps {
 		r.step = i
 		st := &plan.Steps[i]
@@ -164,9 +173,17 @@ func ExecChain(plan *ChainPlan, cfg *ChainCfg, rc *RunCtx) *Violation {
 		time.Sleep(time.Millisecond) // the clock never stands still between two operations
 		rc.St.Steps++
 		rc.St.Ops[st.Op]++
+		if cfg.Crash {
+			stepAt = append(stepAt, w.Nodes[0].Disk.JournalLen())
+		}
 		if v := r.doStep(st); v != nil {
 			return v
 		}
+	}
+	if cfg.Crash {
+		rc.RunBG()
+		journal := w.Nodes[0].Disk.StopJournal()
+		return r.crashEnumerate(crashBase, journal, stepAt)
 	}
 	// final quiescence: run whatever is pending and check once more
 	r.step = len(plan.Steps)
@@ -406,6 +423,7 @@ func (r *chainRun) doStep(st *CStep) *Violation {
 			break
 		}
 		r.logf("%s truncate to %s h=%d", n.Name, hx(tb.Blockid), h)
+		r.sawTruncate = true
 		r.rc.St.Probes["truncate"]++
 		var keep []string
 		for _, id := range v.stored {
@@ -454,6 +472,9 @@ func (r *chainRun) doStep(st *CStep) *Violation {
 			return vi
 		}
 		r.rc.St.Probes["failed-op-checked"]++
+	}
+	if r.cfg.NoStepOrcl {
+		return nil
 	}
 	for _, ti := range touched {
 		if v := r.checkNode(ti, false); v != nil {
@@ -752,6 +773,10 @@ func diffFilterState(k string) bool {
 		return false
 	}
 	if strings.HasPrefix(k, "S.raw.N") || k == "S.pool" {
+		return false
+	}
+	// the irreversible height depends on every block ever applied, not on B alone (property C17)
+	if k == "S.meta.irr" || k == "S.raw.M.MIrreversibleBlockHeight" {
 		return false
 	}
 	return true
